@@ -629,8 +629,46 @@ func (c *checkCtx) plan() bool {
 			c.tablesTask()
 		}
 		c.auxTask()
+		// dependency closure: the frames compute their checksums with the services found through codec.Get; every plan
+		// that uses those contracts at call sites also verifies them (the services' Calc / Algorithm, that the built-in
+		// services are registered at start-up, and Get's own specification)
+		c.codecTask([]string{"(*Crc16ChecksumService).Calc", "(*Crc32ChecksumService).Calc", "(*SseBinChecksumService).Calc", "(*SzseBinChecksumService).Calc",
+			"(*Crc16ChecksumService).Algorithm", "(*Crc32ChecksumService).Algorithm", "(*SseBinChecksumService).Algorithm", "(*SzseBinChecksumService).Algorithm"}, nil)
+		c.registryInit()
+		n := len(c.obs)
+		c.registryTask()
+		kept := c.obs[:n]
+		for _, o := range c.obs[n:] {
+			if strings.HasPrefix(o.Name, "codec.Get/") {
+				o.Props = []string{c.prop}
+				kept = append(kept, o)
+			}
+		}
+		c.obs = kept
+		c.dedupe()
 	}
 	return true
+}
+
+// dedupe drops obligations generated twice (the same function verified by two tasks of one plan).
+func (c *checkCtx) dedupe() {
+	seen := map[string]bool{}
+	var out []*Obligation
+	for _, o := range c.obs {
+		k := o.Name + "\x00" + o.Func + "\x00" + o.Detail
+		if o.Raw == "" && o.Goal != nil {
+			k += "\x00" + o.Goal.Key()
+			for _, h := range o.Hyps {
+				k += "\x01" + h.Key()
+			}
+		}
+		if seen[k] {
+			continue
+		}
+		seen[k] = true
+		out = append(out, o)
+	}
+	c.obs = out
 }
 
 func (c *checkCtx) auxTask() {
